@@ -396,6 +396,8 @@ func c14(w *core.World, r *core.Report) {
 	}
 	r.Rule("R12.3", "a unit's end offset is the end of its last source command (the EXEC for a source transaction): start offset + decoder offset of the same iteration (shared with C12)", 4)
 	ruleOffsetPlumbing(w, r)
+	r.Rule("R14.13", "the frontier is rebuilt from the stored snapshot (or none), never from a base made up for the journal", 1)
+	ruleRebuildFromStoredSnapshot(w, r)
 }
 
 func ruleSaveBeforeDelete(w *core.World, r *core.Report) {
